@@ -924,7 +924,9 @@ func runHistory(t *testing.T, h *History) (lines []string) {
 	rs.mu.Unlock()
 	sort.Strings(ds)
 	for _, d := range ds {
-		if tm, err := http.ParseTime(d); err == nil {
+		// an HTTP-date is always in GMT (RFC 9110 §5.6.7): what http.ParseTime makes of another zone abbreviation
+		// in the obsolete rfc850 layout depends on the zone of the process and is not a date at all
+		if tm, err := http.ParseTime(d); err == nil && isGMTDate(tm) {
 			rs.emit("I\tDATE\t%s\t%d", hx(d), tm.Unix())
 		} else {
 			rs.emit("I\tDATE\t%s\tx", hx(d))
@@ -932,6 +934,11 @@ func runHistory(t *testing.T, h *History) (lines []string) {
 	}
 	rs.emit("E\t%s", hx(h.ID))
 	return rs.lines
+}
+
+func isGMTDate(t time.Time) bool {
+	name, off := t.Zone()
+	return off == 0 && (name == "GMT" || name == "UTC")
 }
 
 func hdrToHTTP(h Hdr) http.Header {
